@@ -123,6 +123,31 @@ CHECKS = [
   'note': 'Stubs: aiohttp session, asyncio.sleep, worker thread, block file; logging no-op; reals stand for floats '
           '(doubling/min/max exact).  Daemon assumed to answer batches in request order.',
   'design_ref': 'DESIGN.md section 4, C18'},
+ {'id': 'C16', 'engine': 'crosshair',
+  'technique': 'CrossHair (z3-backed symbolic execution of Python) over JSON-typed arguments; native replay',
+  'text': 'One CrossHair wrapper per entry of ElectrumX.set_request_handlers (both protocol tables) and per argument '
+          'validator: arguments are JSON-typed unions (None/bool/int/float/str, lists/dicts of those, strings <= 6 '
+          'chars, plus well-formed representatives selected by an integer); the session is a real ElectrumX on a real '
+          'SessionManager over a real populated LevelDB index; post-condition: JSON-serialisable result or RPCError/'
+          'ReplyAndDisconnect, and on an error reply subscriptions, statuses and the other session are unchanged.  '
+          'Per target the evidence says confirmed-over-all-paths / not-confirmed (inconclusive) / refuted; refutations '
+          'are replayed untraced.  A fixed adversarial corpus is also run natively and labelled as concrete coverage.',
+  'note': 'Bounded symbolic search: most targets end as not-confirmed within the per-condition budget (12 s quick, 90 s '
+          'thorough), i.e. no counterexample among the paths explored - not a proof.  Stubs: daemon, mempool API, name '
+          'resolution (runs the real pure-Python idna codec first), cost accounting.',
+  'design_ref': 'DESIGN.md section 4, C16'},
+ {'id': 'C19',
+  'technique': 'symx bounded symbolic execution (K1) + CrossHair on JSON feature dictionaries (K2)',
+  'text': 'K1: real PeerManager.on_peers_subscribe/_get_recent_good_peers over peer sets drawn from a 24-entry '
+          'hand-labelled address pool with every last_good and the clock symbolic reals, bad flags symbolic, '
+          'random.shuffle a solver-chosen permutation, 0..60 onion peers, tor/non-tor: every advertised tuple is a '
+          'recent, not-bad, publicly routable peer (by the pool labels) or a recently verified own identity, <= 2 per '
+          '/16-/56 bucket, onion peers capped.  K2: CrossHair on Peer.peers_from_features with JSON-typed feature '
+          'dictionaries: never raises, ports None or in (0, 65536), public only for routable addresses / valid host '
+          'names.',
+  'note': 'K1 peer sets are enumerated (9 quick / 13 thorough), values inside are solver-quantified; K2 is bounded '
+          'search (not-confirmed = inconclusive).  time.time / random.shuffle are symbolic stubs.',
+  'design_ref': 'DESIGN.md section 4, C19'},
 ]
 _TODO = 'check not built yet in this revision (planned, see DESIGN.md section 4); no claim is made'
-NOT_APPLICABLE = [{'property_id': f'C{n:02d}', 'reason': _TODO} for n in range(1, 20) if n not in (1, 2, 3, 4, 5, 12, 13, 14, 15, 17, 18)]
+NOT_APPLICABLE = [{'property_id': f'C{n:02d}', 'reason': _TODO} for n in range(1, 20) if n not in (1, 2, 3, 4, 5, 12, 13, 14, 15, 16, 17, 18, 19)]
